@@ -109,14 +109,14 @@ def stepLine (st : St) (ws : List String) : St × String :=
       match t.toInt?, p.toNat?, a.toNat? with
       | some t, some p, some a =>
         match schedAbs s t p a with
-        | .ok s' => ({ st with sim := s' }, s!"ok tag={s.nextTag}")
+        | .ok s' => ({ st with sim := s' }, s!"ok tag={s.nextTag} id={s.nextId}")
         | .error e => (st, fmtErr e)
       | _, _, _ => (st, "bad-op")
   | ["rel", d, p, a] =>
       match d.toInt?, p.toNat?, a.toNat? with
       | some d, some p, some a =>
         match schedRel s d p a with
-        | .ok s' => ({ st with sim := s' }, s!"ok tag={s.nextTag}")
+        | .ok s' => ({ st with sim := s' }, s!"ok tag={s.nextTag} id={s.nextId}")
         | .error e => (st, fmtErr e)
       | _, _, _ => (st, "bad-op")
   | ["cancel", k] =>
